@@ -2,8 +2,9 @@
 # usage: seed_round.sh <seed dir tag e.g. C13b> <vN> "<pkgs>" <props...> : verify a seed and run the given checks against it
 T=$1; V=$2; PK=$3; shift 3
 SD=/tmp/seedwork/$T/SEED_OUT
-cd /tmp/scratch && git checkout -q -- . && git clean -fdq && git checkout -q --detach $(git -C /repo rev-parse HEAD)
+W=${W:-/tmp/scratch}; VT=${VT:-/tmp/vtest}; BIN=${BIN:-/verif/.build/bngvet}; export W
+cd $W && git checkout -q -- . && git clean -fdq && git checkout -q --detach $(git -C /repo rev-parse HEAD)
 echo "=== $T $V: $(grep -h '^+++ b/' $SD/$V.patch | sed 's|+++ b/||' | tr '\n' ' ')"
 /verif/scripts/seed_verify.sh $SD $V $PK 2>&1 | tail -1
-for p in "$@"; do /verif/.build/bngvet -prop $p -repo /tmp/scratch -verif /tmp/vtest 2>&1 | grep -E "^  key|quick:" | cut -c1-230 | (head -4; tail -1); done
-cd /tmp/scratch && git checkout -q -- . && git clean -fdq
+for p in "$@"; do $BIN -prop $p -repo $W -verif $VT 2>&1 | grep -E "^  key|quick:" | cut -c1-230 | (head -4; tail -1); done
+cd $W && git checkout -q -- . && git clean -fdq
